@@ -91,6 +91,8 @@ def positive (step, facts, fnode, path, nonempty_len=None):
     for l, o, r in facts:
       if r is not None and o == '!=' and norm(s) in (norm(l), norm(r)):
         other = r if norm(l) == norm(s) else l
+        # compared with the variable itself, which still holds the previous value when the fact is established
+        if isinstance(other, ast.Name) and other.id == step.var: return True, "explicit %s != previous %s" % (norm(s), step.var)
         # `old = cursor` saved earlier and compared with the new value
         if isinstance(other, ast.Name) and fnode is not None:
           d = q.reaching_assign(fnode, other.id)
@@ -110,13 +112,18 @@ def positive (step, facts, fnode, path, nonempty_len=None):
     return False, "no fact bounds `%s` below: it may be 0" % s.id
   return False, "step size `%s` not understood" % norm(s)
 
-def explicit_progress_assert (facts, loop_test):
-  """assert len(X) != prev  where the loop is driven by len(X)"""
+def explicit_progress_assert (facts, loop_test, path=None):
+  """assert len(X) != prev  where the loop is driven by len(X) - or by a variable that holds the previous len(X) and is
+  then given the new one on the same path"""
   for l, o, r in facts:
     if r is None or o != '!=': continue
     for a, b in ((l, r), (r, l)):
       if isinstance(a, ast.Call) and call_name(a) == 'len' and isinstance(b, ast.Name) and norm(a) in norm(loop_test):
         return True, "asserted %s != %s" % (norm(a), b.id)
+      if isinstance(a, ast.Call) and call_name(a) == 'len' and isinstance(b, ast.Name) and b.id in q.names_in(loop_test) and path is not None:
+        upd = [n for n in path if n.kind == 'stmt' and isinstance(n.ast, ast.Assign) and len(n.ast.targets) == 1 and isinstance(n.ast.targets[0], ast.Name)
+               and n.ast.targets[0].id == b.id and norm(n.ast.value) == norm(a)]
+        if upd: return True, "asserted %s != %s, then %s = %s" % (norm(a), b.id, b.id, norm(a))
   return False, ''
 
 def check_loop (repo, func, g, head, after, loop_stmt, env=None, nonempty_len=None, limit=300, cursors=None):
@@ -139,7 +146,7 @@ def check_loop (repo, func, g, head, after, loop_stmt, env=None, nonempty_len=No
     steps = steps_on_path(func.node, path)
     lines = PathDesc(_lines(path), path)
     if test is not None:
-      ok, why = explicit_progress_assert(facts, test)
+      ok, why = explicit_progress_assert(facts, test, path)
       if ok: res.append((True, why, lines)); continue
     good = None; reasons = []
     for s in steps:
